@@ -389,8 +389,11 @@ def run_iso(case):
     from cnfgen import GraphIsomorphism
     g1, g2 = case['g1'], case['g2']
     nontriv = case['nontrivial']
-    F = GraphIsomorphism(gg.build_simple(g1), gg.build_simple(g2), nontrivial=nontriv,
-                         formula_class=formula_class(case['cls']))
+    G1 = gg.build_simple(g1)
+    # equal descriptions: hand over the very same object for both parameters every other time
+    same_object = g1 == g2 and (len(g1['edges']) + g1['n']) % 2 == 0
+    G2 = G1 if same_object else gg.build_simple(g2)
+    F = GraphIsomorphism(G1, G2, nontrivial=nontriv, formula_class=formula_class(case['cls']))
     nv = F.number_of_variables()
     if nv != g1['n'] * g2['n']:
         raise Violation("GraphIsomorphism {}: {} variables, documented n1*n2".format(case, nv))
@@ -416,6 +419,8 @@ def run_iso(case):
                 raise Violation("GraphIsomorphism {}: the isomorphism {} is not a model".format(case, perm))
     labels = [case['cls'], 'sat' if cnt else 'unsat', 'nontrivial' if nontriv else 'plain',
               g1.get('as', 'cnfgen')]
+    if same_object:
+        labels.append('same-object-twice')
     if g1['n'] != g2['n']:
         labels.append('orders-differ')
     return Outcome(labels=labels, nontrivial=nv >= 1 and len(F) >= 1)
